@@ -404,7 +404,13 @@ pub fn gen_graph_project(rng: &mut Rng, tier: Tier, ptr: usize) -> Project {
             }
             let (fields, impl_funcs) = match if embed_in_owner { 0 } else { rng.below(4) } {
                 0 => (vec![crate::props::c09::field("table", vty.cptr())], vec![]),
-                1 => (vec![crate::props::c09::field("table", vty)], vec![]),
+                1 => (
+                    vec![Field {
+                        base: rng.chance(1, 2),
+                        ..crate::props::c09::field("table", vty)
+                    }],
+                    vec![],
+                ),
                 _ => {
                     fn_counter += 1;
                     (
